@@ -255,7 +255,7 @@ class Runner:
         try:
             data = json.loads(out[i:j + 1])
         except Exception:
-            r.status = 'error'; r.detail = 'unparsable CBMC output:\n' + out[-2000:]; return
+            r.status = 'error'; r.detail = 'unparsable CBMC output (%d bytes), tail: ' % len(out) + out[-400:].replace('\n', ' | '); return
         status = None; faults = []
         for x in data:
             if not isinstance(x, dict): continue
